@@ -1126,8 +1126,19 @@ class C09(Prop):
             return {"prop": self.id, "cfg": cfg, "events": g.ev}
         final = heads.pop(rng.randrange(len(heads)))
         for _ in range(rng.randint(1, 8)):
-            k = g.wchoice([("backward", 4), ("clear", 2), ("setitem", 3), ("iop", 2), ("ufunc", 2), ("reuse", 4), ("null_grad", 1), ("head", 1), ("view", 1)])
+            k = g.wchoice([("backward", 4), ("clear", 2), ("setitem", 3), ("iop", 2), ("ufunc", 2), ("reuse", 4), ("null_grad", 1), ("head", 1), ("view", 1), ("failop", 1.5)])
             live_trunk = [h for h in trunk if h in g.t and g.t[h].val.dtype.kind == "f"]
+            if k == "failop" and live_trunk:
+                # a statement on a shared tensor that fails (operands that do not broadcast): it
+                # must not count as a re-use of a cleared tensor
+                src = g.choice(live_trunk)
+                bad = tuple(d + 1 for d in g.t[src].val.shape) + (2,) if g.t[src].val.ndim else (2, 3)
+                other = {"n": enc_arr(np.ones(bad))}
+                if g.t[src].val.ndim == 0:
+                    g.emit({"k": "op", "op": "matmul", "out": g.new_h(), "args": [{"t": src}, other], "p": {}, "spell": "f", "fail": 1})
+                else:
+                    g.emit({"k": "op", "op": rng.choice(["add", "mul", "sub"]), "out": g.new_h(), "args": [{"t": src}, other], "p": {}, "spell": "f", "fail": 1})
+                continue
             if k == "backward" and heads:
                 g.backward(heads.pop(rng.randrange(len(heads))))
             elif k == "clear":
